@@ -58,7 +58,7 @@ func init() {
 		Diff:        []string{"D_C03_canonical", "D_C03_misc", "D_C03_unicode"},
 		Functions: []string{"parser.ParseString", "parser.(*ThriftIDL).Init/Parse (PEG rule closures of thrift.peg.go)", "parser.(*parser).parse and the tree walk (parseHeader..parseThrows)",
 			"parser.(*parser).pegText", "parser.(*Annotations).Append", "strconv.ParseInt/ParseFloat"},
-		Bounds: "totality: 34 syntactic contexts x N free ASCII bytes (quick N<=2, thorough N<=3) and one free byte >=0x80; ids/enum values: 3 members x 8 spellings with free digits; literals: 5 positions x 2 quotes x body of <=3 (thorough 4) free bytes; layout: every token boundary of a 190-token document with 1-2 free whitespace bytes, 3 comment styles with <=1 free byte, every list separator position",
+		Bounds:      "totality: 34 syntactic contexts x N free ASCII bytes (quick N<=2, thorough N<=3) and one free byte >=0x80; ids/enum values: 3 members x 8 spellings with free digits; literals: 5 positions x 2 quotes x body of <=3 (thorough 4) free bytes; layout: every token boundary of a 190-token document with 1-2 free whitespace bytes, 3 comment styles with <=1 free byte, every list separator position",
 		Assumptions: []string{"input bytes outside the free region are the fixed context", "the 64 KiB quantifier of the property is far outside the bound", "decimal spellings with a leading zero are not generated (their meaning is not fixed by the statement)"},
 		Harnesses: []Harness{
 			{Func: "H_C03_total", Quick: cross(seq(0, 33), 0, 2), Thorough: cross(seq(0, 33), 0, 3), Covers: []string{"accepted", "rejected"}, StepLimitIsViolation: true},
